@@ -339,6 +339,16 @@ def s1(ctx):
     relabel(ctx, "C03.S1", c11.r1, c11.r2, c18.r1)
 
 
+def _s1_parts():
+    from .shared import relabel
+    from . import c11, c18
+    from .shared import relabel_parts
+    return relabel_parts("C03.S1", c11.r1, c11.r2, c18.r1)
+
+
+s1.parts = _s1_parts
+
+
 RULES = [("C03.R1", r1), ("C03.R2", r2), ("C03.R3", r3), ("C03.R4", r4), ("C03.R5", r5), ("C03.R6", r6), ("C03.S1", s1)]
 
 
